@@ -10,7 +10,9 @@ Gate 3 (property oracle, Python big integers, shares nothing with the model): ex
         every GGSW cell (its error e), of the inputs and of every output; the output phase must
         equal m2 * phase(input) (CMux: phase(t) for bit 1, phase(f) for bit 0) within the explicit
         worst-case bound built from max|e|, the digit size, the dropped limbs and the output ulp.
-Gate 4 (scratch independence): the same call with a dirty scratch arena must give the same bits.
+Gate 4 (scratch independence): the same call with a dirty scratch arena must give the same bits, and
+        CMux cases with dsize >= 3 are also run with exactly representable stale content left in the slot
+        that res_dft will occupy (this is how the defect repaired by poulpy d3c2e96 was found).
 """
 import math
 
@@ -132,8 +134,8 @@ def gen_case(rng, idx, quick):
         if op != "cmux":
             c["ko"] = c["ki"]
         if dsize >= 3 and op != "cmux_assign_neg" and rng.chance(1, 2):
-            # known finding: res_dft is not zeroed by the CMux forms; leave exactly representable stale limbs in
-            # the scratch slot it will occupy (small = invisible under the noise, 40+ bits = wrong decryption)
+            # regression of the defect repaired by poulpy d3c2e96 (res_dft is not zeroed by the CMux forms): leave
+            # exactly representable stale limbs in the scratch slot it will occupy; they must not influence the result
             c["stale"] = rng.choice([6, 12, 20, 40, 44])
     if op in ("ggsw", "ggsw_assign"):
         size_a = ceil_div(ki, bi)
@@ -417,11 +419,7 @@ def run(ctx):
                     max_ratio = max(max_ratio, det.get("ratio", 0.0))
                     if not okc and "stale" in c:
                         n_stale_fail += 1
-                        if stale_witness is None:
-                            stale_witness = {"request": req_line(c), "back_end": BE_NAMES[i], "oracle": det,
-                                             "model_equals_implementation": outs[i] == model[(k, BIG128[i])],
-                                             "rerun": f"printf '1 {req_line(c)}\\n' | harness/target/release/pvh ep"}
-                    elif not okc:
+                    if not okc:
                         ctx.oracle_failures += 1
                         witness = {"request": req_line(c), "back_end": BE_NAMES[i], "oracle": det,
                                    "rerun": f"printf '1 {req_line(c)}\\n' | harness/target/release/pvh ep"}
@@ -450,8 +448,7 @@ def run(ctx):
             for i in range(4):
                 if p0.get(f"be{i}") != p1.get(f"be{i}"):
                     n_stale += 1
-                    if not (c["op"].startswith("cmux") and c["dsize"] >= 3):
-                        broken.append(f"output depends on scratch content: {req_line(c)}")
+                    broken.append(f"output depends on scratch content: {req_line(c)}")
                     if stale_witness is None:
                         stale_witness = {"request": req_line(c), "back_end": BE_NAMES[i], "clean_scratch": p0.get(f"be{i}")[:300],
                                          "dirty_scratch": p1.get(f"be{i}")[:300],
@@ -461,8 +458,8 @@ def run(ctx):
         ctx.cov["dirty_scratch_differences"] = n_stale
 
     if stale_witness is not None:
-        ctx.violation("CMux output depends on the prior content of the scratch arena (res_dft not zeroed, dsize >= 3)",
-                      {"witness": stale_witness}, True, key="bdd_arithmetic/eval.rs:Cmux:res_dft-not-zeroed:dsize>=3")
+        # regression of the defect repaired by poulpy d3c2e96 (CMux forms, dsize >= 3, res_dft not zeroed)
+        ctx.violation("output depends on the prior content of the scratch arena", {"witness": stale_witness}, True)
     if broken:
         ctx.log("broken:", *broken[:6])
         if witness:
